@@ -22,6 +22,7 @@ structure Opts where
   manuallyDrop : Bool    -- --default-non-copy-union-style manually_drop
   flexDst : Bool         -- --flexarray-dst
   representOps : Bool    -- --represent-cxx-operators
+  modulesUnqualified : Bool := false  -- --enable-cxx-namespaces together with --disable-name-namespacing
   deriving Repr, Inhabited
 
 structure Facts where
@@ -70,7 +71,7 @@ inductive Finding where
   | derive_ord_without_eq | opaque_array_no_partialord | newtype_alias_constant | param_shadows_newtype
   | packed_contains_aligned | impl_on_packed_field_ref | empty_union | layout_assertion_fails | struct_layout_panic
   | packed_no_copy_debug | union_field_wrapper_unsafe | union_bool_bitfield_cast | scoped_keyword_name | cnaming_scoped_name
-  | derive_member_trait_missing | moduleconsts_enum_alias | union_bitfield_manually_drop | flexarray_dst_unused_param | tag_typedef_collision | cxx_operator_invalid_ident
+  | derive_member_trait_missing | moduleconsts_enum_alias | union_bitfield_manually_drop | flexarray_dst_unused_param | tag_typedef_collision | cxx_operator_invalid_ident | modules_without_paths
   deriving DecidableEq, Repr, Inhabited
 
 def Finding.name : Finding → String
@@ -94,6 +95,7 @@ def Finding.name : Finding → String
   | .flexarray_dst_unused_param => "flexarray_dst_unused_param"
   | .tag_typedef_collision => "tag_typedef_collision"
   | .cxx_operator_invalid_ident => "cxx_operator_invalid_ident"
+  | .modules_without_paths => "modules_without_paths"
 
 /-- inputs on which the derive analyses are known to disagree with what rustc needs (C08's subject) -/
 def deriveFragile (o : Opts) (f : Facts) : Bool :=
@@ -126,7 +128,8 @@ def classify (o : Opts) (f : Facts) : Err → Option Finding
   | .e0133 => if f.hasUnion && (o.implPartialeq || f.bitfield) then some .union_field_wrapper_unsafe else none
   | .e0054 => if f.hasUnion && f.bitfield then some .union_bool_bitfield_cast else none
   | .unresolved =>
-    if f.cppScope && f.keywordIdent then some .scoped_keyword_name
+    if o.modulesUnqualified && f.cppScope then some .modules_without_paths
+    else if f.cppScope && f.keywordIdent then some .scoped_keyword_name
     else if f.cppScope && o.cNaming then some .cnaming_scoped_name
     else none
   | .other => none
